@@ -130,15 +130,15 @@ reg("C11", exc_ops={"Reopen", "Clear", "Recreate"}, nontrivial=nt_pages, hook="l
     weights={"Reopen": 24, "Clear": 5, "Recreate": 3, "AddRule": 8, "CreateWe": 16, "DeleteWe": 6, "AddPage": 26},
     profile={"raw": 0.1, "long": 0.3, "nlrus": 12}, n=(60, 600), steps=(16, 24), title="Close/reopen/clear")
 reg("C12", exc_ops=set(), nontrivial=nt_we, mc=[("core", 4, 5), ("we", 4, 5)], gen_mc="we",
-    weights={"CreateWe": 14, "DeleteWe": 8, "Reopen": 18, "AddRule": 10, "Clear": 3, "AddPage": 26},
-    profile={"raw": 0.0, "long": 0.1}, title="Webentity ids")
+    weights={"CreateWe": 14, "DeleteWe": 8, "Reopen": 18, "AddRule": 12, "Clear": 3, "AddPage": 26},
+    profile={"raw": 0.0, "long": 0.1, "persist": 0.6}, n=(200, 2000), title="Webentity ids")
 reg("C13", exc_ops=set(), nontrivial=nt_we, hook="hierarchy", obs_fail=False, mc=[("core", 4, 5), ("we", 4, 5)],
     gen_mc="we",
     weights={"CreateWe": 14, "AddPrefix": 10, "MovePrefix": 8, "AddRule": 8, "AddPage": 25, "RemovePrefix": 4},
     profile={"raw": 0.0, "long": 0.1, "nlrus": 14, "extend": 0.25}, title="Hierarchy / pruning flag")
 reg("C14", exc_ops=set(), nontrivial=nt_pages, hook="readonly", obs_fail=False,
-    weights={"Clear": 3, "CreateWe": 8, "AddLinks": 16, "Reopen": 8, "AddRule": 10},
-    profile={"raw": 0.1, "long": 0.3, "nlrus": 10, "reopen_drop": 0.6}, n=(40, 400), steps=(10, 16),
+    weights={"Clear": 3, "CreateWe": 8, "AddLinks": 16, "Reopen": 10, "AddRule": 14},
+    profile={"raw": 0.1, "long": 0.3, "nlrus": 10, "reopen_drop": 0.7}, n=(50, 400), steps=(10, 16),
     title="Queries never modify")
 reg("C15", exc_ops=ALL_OPS, nontrivial=nt_long, hook="pair",
     roles=[("file", ()), ("memory", ())], pairname="C15.pair", prefixes=["C15."], prehook=hooks.prehook_mmap,
@@ -377,7 +377,7 @@ def make_coop(pid, cfg, tier, seed, work):
 reg("C16", exc_ops={"CoopNext"}, prefixes=["C16.", "C02.inv"], maker=make_coop,
     mc=[("coop", None, None), ("coopnet", None, None)],
     weights={"Clear": 0, "Reopen": 0, "AddPage": 30, "IndexBatchCrawl": 20, "CreateWe": 8},
-    profile={"raw": 0.0, "long": 0.3, "nlrus": 9, "extend": 0.3}, n=(100, 1200),
+    profile={"raw": 0.0, "long": 0.3, "nlrus": 9, "extend": 0.3}, n=(260, 1500),
     nontrivial=lambda tr: sum(1 for s in tr["steps"] if s["op"] == "CoopNext") >= 6,
     title="Cooperative interleaving",
     technique="TLA+ step-wise generator model (TraphCoop) with ALL interleavings model-checked (MC_coop) + TLC "
